@@ -23,6 +23,7 @@ type WOp struct {
 	SetMSize  int // 0: leave the channel's msize as it is
 	Msg       refwire.Msg
 	Cancelled bool
+	MidCancel bool // the context is cancelled inside the call (from the connection's SetWriteDeadline), not before it
 }
 
 type WriteCase struct {
@@ -101,6 +102,7 @@ func GenWriteCase(t *rapid.T) WriteCase {
 			}
 		}
 		op.Cancelled = rapid.IntRange(0, 9).Draw(t, "cancelled") == 0
+		op.MidCancel = !op.Cancelled && rapid.IntRange(0, 7).Draw(t, "midcancel") == 0
 		c.Ops = append(c.Ops, op)
 	}
 	return c
@@ -143,7 +145,13 @@ func RunWrite(c WriteCase) harn.Result {
 			cancel()
 			ctx = cctx
 		}
+		if op.MidCancel {
+			cctx, cancel := context.WithCancel(ctx)
+			ctx = cctx
+			a.OnSetWriteDeadline = cancel
+		}
 		err := ch.WriteFcall(ctx, fc)
+		a.OnSetWriteDeadline = nil
 		tap := a.Written()
 		if !bytes.Equal(handed, payloadCopy) {
 			return harn.Fail("op %d (%s, msize %d): WriteFcall modified the caller's data buffer", i, name, msize)
@@ -163,6 +171,15 @@ func RunWrite(c WriteCase) harn.Result {
 		}
 		near := F-msize <= 40 && msize-F <= 40
 		cls := ""
+		if op.MidCancel && err != nil {
+			// the cancellation won: then nothing at all may have been emitted — now or with the next write
+			if len(tap) != 0 {
+				return harn.Fail("op %d (%s): the call failed with %v (context cancelled inside the call) but %d bytes were written", i, name, err, len(tap))
+			}
+			res.Classes = append(res.Classes, "cancelled_inside_call")
+			res.NonTrivial = true
+			continue
+		}
 		switch {
 		case op.Cancelled:
 			if err == nil || len(tap) != 0 {
